@@ -33,7 +33,7 @@ _P["level_text"] = (
     "THEOREMS (Lean 4, all inputs / all histories; about the exact binary64 model that the driver executes against the implementation). "
     "(1) remainder_exact: remainder (the reduction inside AngNormalize, AngDiff, remquo of sincosd) is exact, |r| ≤ |y|/2, zero keeps the sign of x. "
     "(2) angNormalize_spec / angNormalize_nonfinite / latFix_spec / angRound_big: AngNormalize returns a value congruent to x mod 360 exactly, in [−180, 180], with the sign of x at 0 and ±180 "
-    "(constants 360/180/90 re-extracted from Math.hpp every run); LatFix is the identity exactly on [−90, 90]; AngRound is the identity for |x| ≥ 1/16 (angRound_big), below 1/16 it returns the nearest multiple of the documented gap 2^−57 "
+    "(constants 360/180/90 re-extracted from Math.hpp every run); AngNormalize is odd in value and sign bit (angNormalize_odd); LatFix is the identity exactly on [−90, 90]; AngRound is the identity for |x| ≥ 1/16 (angRound_big), below 1/16 it returns the nearest multiple of the documented gap 2^−57 "
     "(within 2^−58 of |x|, in [0, 1/16], sign bit of x kept: angRound_small), and it is odd bit for bit for every argument incl. NaN/±inf (angRound_odd). "
     "(3) sum_exact (Knuth's TwoSum for round-to-nearest-even with gradual underflow): for all representable u, v with |u|, |v| ≤ 2^1018, Math::sum returns the correctly rounded sum and "
     "s + t = u + v exactly — no longer an assumption; fastsum_exact: the same for Accumulator::fastsum when |u| ≥ |v| (Dekker's Fast2Sum). (4) angDiff_exact: d + e ≡ y − x (mod 360) exactly for all finite x, y (no TwoSum hypothesis). "
